@@ -267,10 +267,9 @@ def budgetScan (thr : Int) : Int → Bool → List (Option (Nat × Int)) → Boo
   fail        `writeError` is set and `writeCond.Broadcast()` is called (recordWriteError / writePacket's own failure)
   submitErr w `writePacket` while `writeError != nil`: returns the error, nothing is queued or pushed
   wake w      a parked writer wakes with `writeError != nil`: returns the error, its packet is dropped
-  finishErr   the closing critical section of `kexLoop` after `enterKeyExchange` returned an error, *as written*:
-              `t.writeError = err`, `sentInitMsg = nil`, then the flush loop `t.writeError = t.pushPacket(p)` runs
-              all the same — with a transport that still accepts writes every queued packet is pushed and the last
-              assignment leaves `writeError == nil` again (until `readLoop`'s `recordWriteError` arrives) -/
+  finishErr   the closing critical section of `kexLoop` after `enterKeyExchange` returned an error:
+              `t.writeError = err`, `sentInitMsg = nil`, the flush is skipped (`if t.writeError == nil { … }`),
+              the queue is dropped, `writeCond.Broadcast()` -/
 
 structure ESt where
   s : St
@@ -299,10 +298,9 @@ def estep (e : ESt) : ELabel → Option ESt
   | .submitErr _ => if e.err then some e else none
   | .finishErr =>
     if e.err || e.s.kphase == .idle then none else
-    some { s := { e.s with sentInit := false, kphase := .idle,
-                           wire := e.s.wire ++ e.s.pending.map (fun p => Item.app p.1 p.2), pending := [],
+    some { s := { e.s with sentInit := false, kphase := .idle, pending := [],
                            parked := e.s.parked.map (fun q => { q with signalled := true }) },
-           err := e.s.pending.isEmpty }
+           err := true }
 
 def erun (e : ESt) : List ELabel → Option ESt
   | [] => some e
